@@ -143,6 +143,7 @@ func Execute(t *testing.T, sc *Scenario, keepLog bool) (out *Outcome) {
 		defer w.closeListeners()
 		current.Store(w)
 		w.Run()
+		w.sweepListeners()
 		w.drain()
 		out.finish()
 	})
